@@ -302,7 +302,7 @@ Definition glue_C09 (k : string) (a o : list value) : option verdict :=
     match a, o with
     | [VZ lim], [VZ n] => Some (relational (n <=? lim) true)
     | _, _ => None end
-  else if is k "ip" then
+  else if is k "ip" || is k "ip.hwts" then
     (* args: the scripted history (symbolic); outs: [crashed [steps as observed]] *)
     match o with
     | [VZ crashed; VL steps] =>
